@@ -266,3 +266,21 @@ Theorem S_potential_basis_is_packed_basis :
 Proof. exact potential_basis_is_packed_basis. Qed.
 Print Assumptions S_potential_basis_is_packed_basis.
 
+
+Theorem C08_probes_start_at_the_source_initial_state :
+  forallb (starts_at_source gen_groups) gen_bounds = true.
+Proof. exact probes_start_at_the_source_initial_state. Qed.
+Print Assumptions C08_probes_start_at_the_source_initial_state.
+
+Theorem S_world_operations_are_source :
+  forall (NN : Num) (w : world NN) (idx : nat) (h : handle NN) (step g : carrier NN), nth_error
+    (w_handles NN w) idx = Some h -> w_set_sampled NN w idx step g = (let '(old', v') :=
+    gen_set_sampled NN (h_min NN h) (h_max NN h) (h_old NN h) (get_cell NN (w_params NN w)
+    (h_cell NN h)) step g in Some {| w_params := set_nth (w_params NN w) (h_cell NN h) v';
+    w_handles := set_nth (w_handles NN w) idx (with_old NN h old'); w_calls := w_calls NN w |})
+    /\ w_reset NN w idx = (let '(_, v') := gen_reset_value NN (h_old NN h) (get_cell NN
+    (w_params NN w) (h_cell NN h)) in Some {| w_params := set_nth (w_params NN w) (h_cell NN h)
+    v'; w_handles := w_handles NN w; w_calls := w_calls NN w |}).
+Proof. exact world_operations_are_source. Qed.
+Print Assumptions S_world_operations_are_source.
+
